@@ -310,7 +310,9 @@ func checkC20(sc *Scenario, st *Stats) *Violation {
 		big20 = true
 	}
 	nontrivial := big20 || multi
-	st.Case(sc.JSON(), nontrivial, sc, "family:"+strings.SplitN(ex.Note, " ", 2)[0], "fork:"+sc.Fork)
+	// compact sample (the scenario itself carries a 20 KB dummy contract)
+	sample := map[string]interface{}{"probe": ex.Note, "fork": sc.Fork, "code": fmt.Sprintf("%x", []byte(sc.Accounts[0].Code)), "storage": sc.Accounts[0].Storage}
+	st.Case(sc.JSON(), nontrivial, sample, "family:"+strings.SplitN(ex.Note, " ", 2)[0], "fork:"+sc.Fork)
 	return nil
 }
 
